@@ -845,19 +845,9 @@ fn check_cow_pair(a: &[u8], b: &[u8], acc: &mut Acc) {
 
 // ---------------------------------------------------------------- driver
 
-#[path = "c19_backoff.rs"]
-mod c19_backoff_tmp;
 pub fn run(args: &Args) -> Report {
     crate::sim::install_quiet_panic_hook();
     let mut rep = Report::new("C20", &args.tier, "enum", "exploration");
-    if std::env::var_os("B1_BACKOFF").is_some() {
-        if let Some(v) = args.replay_json() {
-            c19_backoff_tmp::replay_backoff(&mut rep, &v);
-        } else {
-            c19_backoff_tmp::run_backoff(&mut rep, args.thorough());
-        }
-        return rep;
-    }
     let thorough = args.thorough();
     let threads = args.threads.max(1);
     rep.extra.insert("build_profile".into(), json!(if cfg!(debug_assertions) { "checked" } else { "release" }));
